@@ -8,4 +8,5 @@ def main : IO Unit := runDriver fun
   | "reload" :: args => Config.handleReload args
   | "reload2" :: args => Config.handleReload2 args
   | "stats" :: args => Config.handleStats args
+  | "ingestsrc" :: args => Config.handleIngestSrc args
   | _ => none
